@@ -141,7 +141,7 @@ func genConvGeom(rt *rapid.T) convGeom {
 				lo, hi = 0, 0
 			}
 			o := rapid.IntRange(1, 4).Draw(rt, "out")
-			if a == sp-1 && rapid.IntRange(0, 11).Draw(rt, "bigOut") == 0 {
+			if a == sp-1 && rapid.IntRange(0, 29).Draw(rt, "bigOut") == 0 {
 				o = rapid.SampledFrom([]int{9, 16, 17, 33}).Draw(rt, "bigOutExt")
 			}
 			p := (o-1)*g.stride[a] + ke + rapid.IntRange(0, g.stride[a]-1).Draw(rt, "slack")
@@ -315,7 +315,7 @@ func TestC05(t *testing.T) {
 		"float64 direct convolution with the gamma_K forward bound (K = C*kh*kw + 1); a refusal is allowed by the statement ('a configuration the library does not implement is refused')")
 	defer reportKnownFindings("C05")
 
-	check(t, "conv", 15000, 150000, func(rt *rapid.T) {
+	check(t, "conv", 5000, 100000, func(rt *rapid.T) {
 		var c c05Case
 		c.g = genConvGeom(rt)
 		c.dt = rapid.SampledFrom([]tensor.Dtype{tensor.Float32, tensor.Float32, tensor.Float64}).Draw(rt, "dtype")
@@ -362,7 +362,7 @@ func TestC05(t *testing.T) {
 		}
 		// the caller owns its tensors: the same weight object with new contents, given to a fresh
 		// operator, must be convolved with the new contents
-		if res.ok() && g.group <= 1 && rapid.IntRange(0, 5).Draw(rt, "reuseWeightObject") == 0 {
+		if res.ok() && g.group <= 1 && rapid.IntRange(0, 9).Draw(rt, "reuseWeightObject") == 0 {
 			ins := c.inputs()
 			first := runOp("Conv", node, ins)
 			wv := f64s(c.w)
